@@ -4,6 +4,8 @@ import (
 	"encoding/json"
 	"testing"
 
+	"gitlab.com/gomidi/midi/v2/zverif/noise"
+
 	"pgregory.net/rapid"
 )
 
@@ -41,6 +43,7 @@ func NewCheck[C any](property, name, rule string, gen func(t *rapid.T) C, run fu
 // One evaluates one case, records it and fails t on a violation.
 func (k *Check[C]) One(t TB, c C) {
 	t.Helper()
+	noise.Before() // the process has a history: see package noise
 	res := k.Run(c)
 	if res.Skip {
 		k.R.Class("_skipped", 1)
